@@ -306,6 +306,16 @@ def subst_case_with_probes(draw, kinds=PLAIN_KINDS, dict_bias=0):
     c = draw(subst_case(kinds=kinds, sat=True, dict_bias=dict_bias))
     v = c["value"]
     probes = [v]            # the substituted value itself (a partial one is accepted by neither side)
+    # v with a scalar leaf replaced by the equal-valued scalar of another type (2 -> 2.0, True -> 1, b"" -> bytearray)
+    leaves = [p for p in values.paths(v) if type(values.get_at(v, p)) in (int, float, bool, bytes)]
+    for p in leaves[:3]:
+        x = values.get_at(v, p)
+        try:
+            tw = {int: float, float: int, bool: int}.get(type(x), lambda b: Zoo("bytearray"))(x)
+        except (OverflowError, ValueError):
+            continue
+        if isinstance(tw, Zoo) or tw == x:
+            probes.append(values.replace_at(v, p, tw))
     for _ in range(3):
         probes.append(draw(values.perturb(v))[0])
     if c["full"] is not None:
